@@ -119,7 +119,40 @@ def _break_filtering_skipped():
     # keep the planted assertion through the mutation-analysis filter: it is violated on every mutant too
 
 
+def _fix_expected_exception_is_not_a_kill():
+    """Proposed repair (finding outside the literal statement of C21): an exception raised at a statement that carries only an
+    exception assertion is the expected behaviour of the test and does not kill the mutant."""
+    import pynguin.assertion.assertiongenerator as ag
+
+    cls = ag.MutationAnalysisAssertionGenerator
+    holder = {}
+    orig_handle = cls._handle_add_assertions
+
+    def handle(self, test_cases):
+        holder["tests"] = test_cases
+        return orig_handle(self, test_cases)
+
+    def compute(number_of_mutants, tests_mutants_results):
+        tests = holder["tests"]
+        info = [ag._MutantInfo(i) for i in range(number_of_mutants)]
+        for test_num, row in enumerate(tests_mutants_results):
+            stmts = tests[test_num].statements()
+            for inf, result in zip(info, row, strict=True):
+                if result is None or inf.timed_out_by:
+                    continue
+                if result.timeout:
+                    inf.timed_out_by.append(test_num)
+                elif (len(result.assertion_verification_trace.error) > 0 or len(result.assertion_verification_trace.failed) > 0
+                      or any(not (i < len(stmts) and stmts[i].has_only_exception_assertion()) for i in result.exceptions)):
+                    inf.killed_by.append(test_num)
+        return ag._MutationSummary(info)
+
+    cls._handle_add_assertions = handle
+    setattr(cls, MANGLE + "compute_mutation_summary", staticmethod(compute))
+
+
 BREAKS = {
+    "PROPOSED_FIX_expected-exception-is-not-a-kill": _fix_expected_exception_is_not_a_kill,
     "greedy-drops-needed": _break_greedy_drops_needed,
     "index-shift": _break_index_shift,
     "timeouts-count-as-kills": _break_timeouts_count_as_kills,
